@@ -40,15 +40,19 @@ impl<'n> TryFromNode<'n> for Field {
         target_namespace.clone_from(&doc.current_target_namespace);
 
         let is_attribute = node.tag_name().name() == "attribute";
+        let is_choice = node.parent().is_some_and(|n| n.tag_name().name() == "choice");
         let parent_is_optional = node.parent().and_then(|n| n.attribute("minOccurs")) == Some("0");
         let is_optional = if is_attribute {
             node.attribute("use") != Some("required")
         } else {
-            node.attribute("minOccurs") == Some("0") || parent_is_optional
+            // only one branch of a choice is present in an instance
+            node.attribute("minOccurs") == Some("0") || parent_is_optional || is_choice
         };
-        let parent_is_vec = node.parent().and_then(|n| n.attribute("maxOccurs")) == Some("unbounded");
-        let is_vec = Node::attribute(&node, "maxOccurs") == Some("unbounded") || parent_is_vec;
-        let is_choice = node.parent().is_some_and(|n| n.tag_name().name() == "choice");
+        let parent_is_vec = node
+            .parent()
+            .and_then(|n| n.attribute("maxOccurs"))
+            .is_some_and(is_repeatable);
+        let is_vec = Node::attribute(&node, "maxOccurs").is_some_and(is_repeatable) || parent_is_vec;
 
         // check if this is an any type
         if node.tag_name().name() == "any" {
@@ -238,6 +242,11 @@ impl Display for RustFieldType {
             }
         }
     }
+}
+
+/// `maxOccurs` values that allow more than one occurrence
+fn is_repeatable(max_occurs: &str) -> bool {
+    max_occurs == "unbounded" || max_occurs.parse::<u64>().is_ok_and(|n| n > 1)
 }
 
 fn split_type(node_type: &str) -> (&str, Option<&str>) {
